@@ -292,6 +292,7 @@ func init() {
 	Registry["C17"] = func(c *mc.Ctx) {
 		setenvTier(c.Tier)
 		c.RunSharded("c17")
+		c17Cross(c)
 		ms := c17Methods()
 		nInternal := 0
 		for _, m := range ms {
